@@ -196,6 +196,9 @@ func linksOf(it mItem) []string {
 		return nil
 	}
 	out := append([]string(nil), p.BodyLinks...)
+	if p.AttachBroken {
+		return out // "failed to load attachments" is shown in their place; there is nothing to number
+	}
 	for _, a := range p.Attachments {
 		out = append(out, a.Href)
 	}
